@@ -66,7 +66,8 @@ class TwinGen(Gen):
         r = self.rng.random
         n = self.length(rs)
         ch = self.rng.choice(['apply', 'apply', 'remove', 'clear', 'slice', 'slice', 'index', 'clip', 'add', 'iadd', 'join',
-                              'simplify', 'matching', 'copy'])
+                              'simplify', 'matching', 'copy', 'strip', 'strip', 'pad', 'pad2', 'case', 'replace', 'split', 'partition',
+                              'rmfix', 'render', 'render', 'probe'])
         if not self.room(8):
             return rs, ra
         if ch == 'apply':
@@ -124,6 +125,52 @@ class TwinGen(Gen):
             return self.both(rs, ra, o, inplace_only=True)
         if ch == 'copy':
             return self.both(rs, ra, {'op': 'copy'})
+        if ch == 'strip':
+            t = self.base_text(rs)
+            chars = None if r() < 0.4 else self.rng.choice(['a', 'ab', ' -', t[:1] + t[-1:], ' '])
+            return self.both(rs, ra, {'op': 'strip', 'm': self.rng.choice(['strip', 'lstrip', 'rstrip', 'rstrip']), 'chars': chars}, has_inplace=True)
+        if ch in ('pad', 'pad2'):
+            w = n + self.rng.randint(0, 4)
+            fill = self.rng.choice([None, '*', '0', ':'])
+            meths = self.rng.sample(['ljust', 'rjust', 'center', 'zfill'], 2 if ch == 'pad2' else 1)
+            out = (rs, ra)
+            for meth in meths:       # pad2: two different justifications of the SAME objects with the same width and fill
+                o = {'op': 'pad', 'm': meth, 'width': w}
+                if meth != 'zfill' and fill is not None:
+                    o['fill'] = fill
+                out = self.both(rs, ra, o, has_inplace=True) or out
+            return out
+        if ch == 'case':
+            return self.both(rs, ra, {'op': 'case', 'm': self.rng.choice(['upper', 'lower', 'title', 'swapcase', 'capitalize', 'casefold'])}, has_inplace=True)
+        if ch == 'replace':
+            new = self.do({'op': 'lit', 'text': self.rng.choice(['', '+', 'xy'])})['res'][0] if r() < 0.5 else self.pick('SAP')
+            if not new:
+                return rs, ra
+            return self.both(rs, ra, {'op': 'replace', 'old': self.substr(rs, 1, 2), 'new': new, 'count': self.rng.choice([-1, -1, 1])}, has_inplace=True)
+        if ch == 'split':
+            sep = None if r() < 0.3 else self.substr(rs, 1, 2)
+            self.both(rs, ra, {'op': 'split', 'm': self.rng.choice(['split', 'rsplit']), 'sep': sep, 'maxsplit': self.rng.choice([-1, 1, 2])})
+            return rs, ra
+        if ch == 'partition':
+            self.both(rs, ra, {'op': 'partition', 'm': self.rng.choice(['partition', 'rpartition']), 'sep': self.substr(rs, 1, 2)})
+            return rs, ra
+        if ch == 'rmfix':
+            t = self.base_text(rs)
+            meth = self.rng.choice(['removeprefix', 'removesuffix'])
+            k = self.rng.randint(0, 2)
+            return self.both(rs, ra, {'op': 'rmfix', 'm': meth, 's': t[:k] if meth == 'removeprefix' else t[len(t) - k:]}, has_inplace=True)
+        if ch == 'render':
+            # the three rendering routes under the same flags must give the very same string for both classes
+            flags = {'optimize': r() < 0.5, 'reset_start': r() < 0.5, 'reset_end': r() < 0.5}
+            es = self.do(dict({'op': 'render', 'r': rs, 'how': 'to_str'}, **flags))
+            ea = self.do(dict({'op': 'render', 'r': ra, 'how': 'to_str'}, **flags))
+            self.do({'op': 'twinrender', 'a': ea['o'].get('out', [0]), 'b': es['o'].get('out', [1])})
+            return rs, ra
+        if ch == 'probe':
+            # text appended afterwards must come out the same for both classes (nothing left open)
+            x = self.do({'op': 'lit', 'text': 'xy'})['res'][0]
+            self.both(rs, ra, {'op': 'add', 'other': x})
+            return rs, ra
         return rs, ra
 
 
